@@ -35,6 +35,15 @@ Vector(t, hi) == Digits(t, hi, Len(hi))
 RECURSIVE Size(_,_)
 Size(hi, pos) == IF pos < 1 THEN 1 ELSE (hi[pos] + 1) * Size(hi, pos - 1)
 
+\* ---- the table: one Engine.restart() before the first row, then the engine's state is carried from row to row ----------
+\* An abstract engine with one output that locks its previous value: two rules read the LAST input (whose grid is the
+\* integers 0..hi): `A` fires where the digit is 1 or 2 modulo 8 and concludes the constant 1, `B` where it is 5 modulo 8
+\* and concludes 2; on the other points no rule fires and the output keeps the value of the previous ROW (0 stands for
+\* nan: no valid value yet).  Rows at every multiple of 8 are dead points, so a state that is not carried across any
+\* internal boundary of the export (a batch, a chunk, a restart) shows in the column.
+Fires(x) == LET d == x[Len(x)] % 8 IN IF d \in {1, 2} THEN 1 ELSE IF d = 5 THEN 2 ELSE 0
+RowValue(x, prev) == IF Fires(x) # 0 THEN Fires(x) ELSE prev
+
 \* ---- reader: which lines are tabulated ---------------------------------------------------------------------------------
 \* line kinds: "data", "blank", "comment" (# in the first column after stripping), "space-comment" (indented #)
 Tabulated(lines, skip) == { i \in 1..Len(lines) : i > skip /\ lines[i] = "data" }
